@@ -77,25 +77,30 @@ def run(tier):
                                 writers.append((facts.where(n).split(':')[0], fname, n))
     # the tick "module": automata_tick and the static helpers all of whose callers belong to it (a tick split into
     # tick_enumeration / tick_hello_timeout is still the tick)
-    aix = prog.unit(AUTOMATA_UNIT)
+    # (over all core units: the tick may live in any of them)
     cgraph = {}
-    for fname, fn in aix.functions.items():
-        for n in walk(fn):
-            if n.get('kind') == 'CallExpr' and n.get('inner'):
-                c = n['inner'][0]
-                while c.get('kind') in ('ImplicitCastExpr', 'ParenExpr'):
-                    c = c['inner'][0]
-                if c.get('kind') == 'DeclRefExpr':
-                    cgraph.setdefault(c.get('referencedDecl', {}).get('name'), set()).add(fname)
+    corefns = {}
+    for aix in prog.index.values():
+        for fname, fn in aix.functions.items():
+            if not (fn.get('_file') or '').startswith(os.path.join(facts.REPO, 'lltdResponder') + os.sep):
+                continue
+            corefns.setdefault(fname, fn)
+            for n in walk(fn):
+                if n.get('kind') == 'CallExpr' and n.get('inner'):
+                    c = n['inner'][0]
+                    while c.get('kind') in ('ImplicitCastExpr', 'ParenExpr'):
+                        c = c['inner'][0]
+                    if c.get('kind') == 'DeclRefExpr':
+                        cgraph.setdefault(c.get('referencedDecl', {}).get('name'), set()).add(fname)
     tick_module = {'automata_tick'}
     grew = True
     while grew:
         grew = False
-        for fname, fn in aix.functions.items():
+        for fname, fn in corefns.items():
             if fname not in tick_module and fn.get('storageClass') == 'static' and cgraph.get(fname) and cgraph[fname] <= tick_module:
                 tick_module.add(fname)
                 grew = True
-    in_tick = lambda p_, f_: f_ in tick_module and p_.endswith('lltdAutomata.c')
+    in_tick = lambda p_, f_: f_ in tick_module and p_.startswith('lltdResponder/')
     rep.check(len(callers) == 1 and in_tick(callers[0][0], callers[0][1]), 'R12.a', 'callers',
               'the send_hello slot is invoked from %s; exactly one call site in automata_tick is expected' % [(p, f) for p, f, _ in callers],
               node=callers[0][2] if callers else None, function=callers[0][1] if callers else 'automata_tick', file=fnf,
